@@ -48,7 +48,7 @@ class Exec:
         s.called = set(); s.path_samples = []; s.completed_models = []; s.keep_models = 0
         s.domain_checks = False; s.domain_issues = []; s.record_reads = False
         s.srt = z3.RealSort() if mode == 'real' else F64
-        s.deadline = None; s.fork_select = True; s.libm_axioms = True; s.libm_mono = True; s.ackermann = True; s.ack_vars = {}; s.ack_keep = []; s.vcache = {}; s.slicing = (mode == 'real')
+        s.deadline = None; s.fork_select = True; s.libm_axioms = True; s.libm_mono = True; s.ackermann = False; s.ack_vars = {}; s.ack_keep = []; s.vcache = {}; s.slicing = (mode == 'real')
     # ------------------------------------------------------------ solver
     def vars_of(s, e):
         """uninterpreted constants and function symbols occurring in e (cached per AST id)"""
@@ -109,7 +109,7 @@ class Exec:
             if i in seen: continue
             seen.add(i)
             if z3.is_app(x):
-                if x.num_args() > 0 and x.decl().kind() == z3.Z3_OP_UNINTERPRETED: apps[i] = x
+                if x.num_args() > 0 and x.decl().kind() == z3.Z3_OP_UNINTERPRETED and x.decl().name().startswith('libm_'): apps[i] = x      # libm only: harness UFs over bit-vectors stay UFs
                 stack.extend(x.children())
         if not apps or len(apps) > 24: return None            # many applications (series sums): the pairwise congruence instances would swamp the query
         order = sorted(apps.values(), key=lambda a: len(str(a)) if False else a.get_id())
